@@ -320,9 +320,13 @@ func runC17(t testing.TB, c C17Case) (key, what string, stats map[string]int) {
 		}
 		return k, why, stats
 	}
+	snapshot := bytes.Clone(got)
 	got2, err2 := conv.From(srcs...)
-	if err2 != nil || !bytes.Equal(got, got2) {
+	if err2 != nil || !bytes.Equal(snapshot, got2) {
 		return "nondeterministic", fmt.Sprintf("second call differs (err=%v)", err2), stats
+	}
+	if !bytes.Equal(got, snapshot) {
+		return "result-changed-by-later-call", "the payload returned by the first call changed when From was called again", stats
 	}
 	// differential through the real program: curlrevshell -print-ctrl-i prints
 	// the payload followed by the list function (default table, one source)
